@@ -63,20 +63,71 @@ Proof. exact (setitem_meets_spec table feats). Qed.
 Print Assumptions C11_assignment_meets_spec.
 
 (* Routes: ConfigurationDict.update / Configuration.update / the constructor
-   are item assignments in sequence ... *)
-Theorem C11_update_is_sequential_assignment :
-  forall (sec : str) (l1 l2 : list (str * value)) (d : dict),
-    update table feats sec (l1 ++ l2) d =
-    match update table feats sec l1 d with
-    | Done d1 ws1 =>
-        match update table feats sec l2 d1 with
-        | Done d2 ws2 => Done d2 (ws1 ++ ws2)
-        | o => o
-        end
-    | o => o
+   assign key by key.  Frame: entries whose (lower-case) key is not assigned
+   keep their value ... *)
+Theorem C11_update_frame :
+  forall (sec : str) (items : list (str * value)) (d d' : dict)
+         (ws : list warning) (k0 : str),
+    update table feats sec items d = Done d' ws ->
+    (forall k v, In (k, v) items -> lower k <> k0) ->
+    dget d' k0 = dget d k0.
+Proof. exact (update_frame table feats). Qed.
+Print Assumptions C11_update_frame.
+
+(* ... the last assignment of a key decides: it stores what the
+   specification says ... *)
+Theorem C11_update_last_wins :
+  forall (sec : str) (items : list (str * value)) (k : str) (v : value)
+         (d d' : dict) (ws : list warning) (w : value),
+    update table feats sec (items ++ [(k, v)]) d = Done d' ws ->
+    spec_store table feats sec k v = Ok (Some w) ->
+    dget d' (lower k) = Some w.
+Proof. exact (update_last_wins table feats). Qed.
+Print Assumptions C11_update_last_wins.
+
+(* ... and a rejected assignment (unknown key, "", None) changes nothing. *)
+Theorem C11_update_rejected_keeps :
+  forall (sec : str) (items : list (str * value)) (k : str) (v : value)
+         (d d' : dict) (ws : list warning),
+    update table feats sec (items ++ [(k, v)]) d = Done d' ws ->
+    spec_store table feats sec k v = Ok None ->
+    exists d1 ws1, update table feats sec items d = Done d1 ws1 /\ d' = d1.
+Proof. exact (update_rejected_keeps table feats). Qed.
+Print Assumptions C11_update_rejected_keeps.
+
+(* Configuration level (cfg[sec][key] = v, Configuration.update, constructor):
+   section names and keys are case-insensitive, and the item route is the
+   dictionary-level assignment on the lower-case section. *)
+Theorem C11_section_and_key_case_insensitive :
+  forall (sec sec' key key' : str) (v : value) (c : config),
+    lower sec = lower sec' -> lower key = lower key' ->
+    cfg_item table feats sections sec key v c
+    = cfg_item table feats sections sec' key' v c
+    /\ forall items, cfg_update table feats sec items c
+                     = cfg_update table feats sec' items c.
+Proof.
+  exact (fun sec sec' key key' v c Hs Hk =>
+           conj (cfg_item_case_insensitive table feats sections
+                   sec sec' key key' v c Hs Hk)
+                (fun items => cfg_update_case_insensitive table feats
+                                sec sec' items c Hs)).
+Qed.
+Print Assumptions C11_section_and_key_case_insensitive.
+
+Theorem C11_item_route_is_assignment :
+  forall (sec key : str) (v : value) (c : config),
+    (cget c (lower sec) <> None \/
+     mem_str (lower sec) sections || str_eqb (lower sec) s_user = true) ->
+    cfg_item table feats sections sec key v c =
+    match setitem table feats (lower sec) key v
+                  (match cget c (lower sec) with Some d => d | None => [] end)
+    with
+    | Done d' ws => CDone (cset c (lower sec) d') (ws ++ [])
+    | Exc e => CExc e
+    | OUnmod => CUnmod
     end.
-Proof. exact (update_app table feats). Qed.
-Print Assumptions C11_update_is_sequential_assignment.
+Proof. exact (cfg_item_is_setitem table feats sections). Qed.
+Print Assumptions C11_item_route_is_assignment.
 
 (* ... and a line of a configuration file (comment removed, not a header)
    is split at its FIRST "=" -- further "=" belong to the value -- and gives
@@ -98,12 +149,24 @@ Theorem C11_file_line_agrees :
 Proof. exact (line_route_agrees table feats). Qed.
 Print Assumptions C11_file_line_agrees.
 
-(* ConfigurationDict.items() lists every stored entry exactly once, sorted by
-   key. *)
-Theorem C11_items_sorted_permutation :
-  forall d : dict, sorted_keys (items d) = true /\ Permutation (items d) d.
-Proof. exact (fun d => conj (items_sorted d) (items_perm d)). Qed.
-Print Assumptions C11_items_sorted_permutation.
+(* A section of a configuration file consisting of well-formed entries for
+   known keys (any number, repeated keys allowed) is the update with the
+   (name, text) pairs in file order. *)
+Theorem C11_file_section_agrees :
+  forall (sec : str) (es : list (str * str * str)) (d : dict),
+    Forall (good_entry table feats sec) es ->
+    load_section table feats sec (map (fun e => fst (fst e)) es) d
+    = update table feats sec
+             (map (fun e => (lower (strip (snd (fst e))),
+                             VS (SStr (file_text (snd e))))) es) d.
+Proof. exact (load_section_agrees table feats). Qed.
+Print Assumptions C11_file_section_agrees.
+
+(* ConfigurationDict.items() lists every stored entry exactly once. *)
+Theorem C11_items_permutation :
+  forall d : dict, Permutation (items d) d.
+Proof. exact items_perm. Qed.
+Print Assumptions C11_items_permutation.
 
 (* Every key of the generated table is found under its own lower-case name
    with the converter the table gives. *)
@@ -123,6 +186,17 @@ Theorem C11_documented_type :
                 has_some_type (r_types r) w = true.
 Proof. exact table_type_ok. Qed.
 Print Assumptions C11_documented_type.
+
+(* The same for every key that has a documented type, i.e. also the
+   online_filter pattern keys "<feat> soft limit" (bool), "<f1>,<f2> polygon
+   points" (array) and "<feat> min/max" (number). *)
+Theorem C11_documented_type_all_keys :
+  forall (sec key : str) (v w : value),
+    types_of table sec key <> [] -> not_bytes v = true ->
+    apply (func_of table sec key) v = Ok w ->
+    has_some_type (types_of table sec key) w = true.
+Proof. exact all_keys_type_ok. Qed.
+Print Assumptions C11_documented_type_all_keys.
 
 (* HDF5 attribute round trip, for every table key of a section that is
    written to .rtdc files: what the attribute layer returns for a converted
@@ -167,6 +241,36 @@ Theorem C11_file_storage_agrees_with_assignment :
     /\ setitem table feats sec key v d = Done (dset d key w) [].
 Proof. exact (h5_route_agrees table feats meta_sections). Qed.
 Print Assumptions C11_file_storage_agrees_with_assignment.
+
+(* Carried over by export.hdf5 and the command-line tools (every tool hop
+   hands the entry of the source configuration to RTDCWriter.store_metadata
+   of the new file, or copies the attribute): after ANY number of hops the
+   file holds exactly the normalised original ... *)
+Theorem C11_carry_over_stable :
+  forall (sec key : str) (v v1 w x : value),
+    lower key = key ->
+    str_eqb sec s_user = false ->
+    mem_str sec meta_sections = true ->
+    key_exists table feats sec key = true ->
+    roundtrippable (func_of table sec key) = true ->
+    decode v = Ok v1 -> clean v1 = true ->
+    apply (func_of table sec key) v1 = Ok w -> h5 w = Ok x ->
+    forall n, carry_hops table feats meta_sections n sec key v
+              = Done [(key, w)] [].
+Proof. exact (carry_hops_stable table feats meta_sections). Qed.
+Print Assumptions C11_carry_over_stable.
+
+(* ... and user-defined entries (any non-blank key, any case, colons) reach a
+   fixed point with the first file, which compares equal to the original. *)
+Theorem C11_carry_over_user_entries :
+  forall (key : str) (v v1 x : value),
+    decode v = Ok v1 -> clean v1 = true -> h5 v1 = Ok x ->
+    strip (lower key) <> [] ->
+    (forall n, carry_hops table feats meta_sections n s_user key v
+               = Done [(lower key, x)] []) /\
+    (wf_arr0 v1 = true -> nf x = nf v1).
+Proof. exact (carry_hops_user_stable table feats meta_sections). Qed.
+Print Assumptions C11_carry_over_user_entries.
 
 (* The model's key validation / converter lookup / documented types agree
    with the answers of the real meta_logic functions on the probe keys
